@@ -5,6 +5,7 @@ import (
 	"errors"
 	"reflect"
 	"sync"
+	"sync/atomic"
 
 	shipapi "github.com/enbility/ship-go/api"
 	"github.com/enbility/ship-go/logging"
@@ -24,6 +25,9 @@ type DeviceRemote struct {
 	sender api.SenderInterface
 
 	localDevice api.DeviceLocalInterface
+
+	// set when the connection of this device was removed from the local device
+	removed atomic.Bool
 }
 
 func NewDeviceRemote(localDevice api.DeviceLocalInterface, ski string, sender api.SenderInterface) *DeviceRemote {
@@ -159,6 +163,12 @@ func (d *DeviceRemote) HandleSpineMesssage(message []byte) (*model.MsgCounterTyp
 	datagram := model.Datagram{}
 	if err := json.Unmarshal([]byte(message), &datagram); err != nil {
 		return nil, err
+	}
+
+	// a message that is still in processing when the connection was removed is not served anymore, otherwise it
+	// could register something for the removed device and would be answered on the removed connection
+	if d.removed.Load() {
+		return nil, errors.New("the connection of this device was removed")
 	}
 
 	if datagram.Datagram.Header.MsgCounterReference != nil {
